@@ -187,7 +187,7 @@ Proof.
       destruct (N.eqb_spec (h_size (f_hdr f)) (page_object_size msz n d)) as [Esz|Esz].
       * (* in place *)
         destruct W as (C & T & I). pose proof (t_bounds _ _ _ T _ _ (szf_some _ _ _ Hx)) as (B1 & B2 & B3 & B4).
-        rewrite Esz. rewrite write_object_over by (rewrite <- Esz; lia). cbn [fst snd].
+        rewrite Esz. rewrite write_object_over by (try rewrite <- Esz; lia). cbn [fst snd].
         set (hd' := {| h_size := page_object_size msz n d; h_next := h_next (f_hdr f); h_body := Obj n m d |}).
         assert (Hget : forall y, hget y (hwrite (f_start f) hd' (heap s)) = if y =? f_start f then Some hd' else hget y (heap s)).
         { intros y. apply hwrite_get_none; [exact Hs|]. intros u H1 H2. apply szf_none.
@@ -243,8 +243,6 @@ Proof.
     + intros k x _ [].
     + intros x k [].
     + intros k _. constructor.
-    + intros x hd n m d H. discriminate.
-    + intros x x' hd hd' n m d m' d' H. discriminate.
   - cbn. apply tiling_empty.
   - intros b p H. discriminate.
 Qed.
